@@ -1,8 +1,202 @@
-/-! stub driver: answers "bad-op" to every line until the family's model is wired in -/
-partial def loop (h : IO.FS.Stream) : IO Unit := do
+import NbioVerif.Model.ReadPath
+import NbioVerif.DrvCommon
+/-! gatedrv: runs the ReadPath model on the annotated ops of `hread` (see harness/cmd/hread/main.go) -/
+open ReadPath
+
+def b2s (b : Bool) : String := if b then "1" else "0"
+
+def parseAddr (s : String) : Option Addr :=
+  match s.splitOn ":" with
+  | ["4", ip, port] =>
+    match Drv.unhex ip with
+    | [a, b, c, d] => some (.v4 a b c d port.toNat!)
+    | _ => none
+  | ["6", ip, port, zone] =>
+    let b := Drv.unhex ip
+    if b.length == 16 then some (.v6 b port.toNat! zone.toNat!) else none
+  | _ => none
+
+structure Want where
+  inn : Bool := false
+  out : Bool := false
+  rdhup : Bool := false
+  err : Bool := false
+
+def parseFlags (s : String) : Option Want :=
+  (s.splitOn "+").foldl (fun acc t => acc.bind fun w =>
+    if t == "in" then some { w with inn := true } else if t == "out" then some { w with out := true }
+    else if t == "rdhup" then some { w with rdhup := true }
+    else if t == "err" || t == "hup" then some { w with err := true } else none) (some {})
+
+def flagStr (inn out rdhup err : Bool) : String :=
+  let p := (if inn then ["in"] else []) ++ (if out then ["out"] else []) ++ (if rdhup then ["rdhup"] else []) ++
+           (if err then ["hup", "err"] else [])
+  if p.isEmpty then "none" else String.intercalate "+" p
+
+structure DS where
+  g : Cfg
+  s : St
+  exec : String := "def"
+  nOpen : Nat := 0
+  nDlv : Nat := 0
+  intrTotal : Nat := 0
+  dead : Bool := false
+
+def ctlStr (g : Cfg) (s : St) : String :=
+  let a := match g.mode with | .lt => "Ar" | .et => "Arwe" | .os => "Areo"
+  String.intercalate "," (a :: List.replicate s.mods "Mreo")
+
+def taskStr : TS → String
+  | .none => "none" | .queued => "queued" | .rd _ => "read" | .dec _ => "dec"
+
+def ansStr : Ans → String
+  | .data _ b => if b.isEmpty then "zero" else toString b.length
+  | .zero => "zero" | .eagain => "eagain" | .eintr => "eintr" | .err => "err" | .closed => "closed"
+
+def stepDesc (s : St) : String :=
+  match s.task with
+  | .none => "exit" | .queued => "queued" | .rd a => "read=" ++ ansStr a | .dec v => s!"dec={v}"
+
+def cerrStr : CErr → String
+  | .nil => "nil" | .eof => "eof" | .rderr => "rderr" | .closed => "closed"
+
+def hex16 (n : UInt64) : String :=
+  let d := (List.range 16).map fun i => Drv.hexDigit ((n >>> (UInt64.ofNat ((15 - i) * 4))).toNat % 16)
+  String.ofList d
+
+def showSt (d : DS) (what : String) : String × DS :=
+  let s := d.s
+  let q := if d.g.udp then s.k.dq.length else s.k.rq.length
+  let opens := String.intercalate "," ((s.opens.drop d.nOpen).map toString)
+  let dels := String.intercalate "," ((s.dlv.drop d.nDlv).map fun (id, b) => s!"{id}:{b.length}:{hex16 (Drv.fnv b)}")
+  let cl := if s.closed then "1:" ++ cerrStr s.cerr else "0"
+  (s!"R {what} open=[{opens}] del=[{dels}] q={q} re={s.re} task={taskStr s.task} arm={b2s s.k.armed} edge={b2s s.k.edge} closed={cl} reads={s.reads} idle={s.idle} ctl={ctlStr d.g s}",
+   { d with nOpen := s.opens.length, nDlv := s.dlv.length })
+
+def fuelOf (g : Cfg) (s : St) : Nat :=
+  16 + 4 * ((if g.udp then s.k.dq.length + 1 else s.k.rq.length / (if g.rbs = 0 then 1 else g.rbs) + 1) + s.k.intr)
+
+/-- deliver a report, let the poller finish the batch and (engine's own executor) the task run to its end -/
+def deliver (d : DS) (inn out : Bool) : Option St :=
+  match report d.g d.s inn out with
+  | none => none
+  | some s =>
+    match runP d.g (fuelOf d.g s + 8) s with
+    | none => none
+    | some s =>
+      if d.g.isAsync && d.exec == "def" then runT d.g (2 * fuelOf d.g s + 8) s else some s
+
+partial def loop (h : IO.FS.Stream) (d : DS) : IO Unit := do
   let line ← h.getLine
   if line.isEmpty then return ()
-  IO.println "bad-op"
-  loop h
+  let ws := line.trimAscii.toString.splitOn " "
+  let say (d : DS) (what : String) : IO Unit := do
+    let (l, d) := showSt d what
+    IO.println l
+    loop h d
+  match ws with
+  | ["C", mode, async, exec, rbs, cap, typ, np] =>
+    let m? : Option Mode := if mode == "lt" then some .lt else if mode == "et" then some .et else if mode == "os" then some .os else none
+    match m? with
+    | some m =>
+      if exec == "real" && (typ == "tcp" || typ == "unix" || typ == "udp") && rbs.toNat! > 0 && cap.toNat! > 0 && np.toNat! > 0 then
+        -- supporting real-kernel tier: nothing to predict, the direct oracles judge
+        IO.println "R real ok"; loop h { d with dead := true }
+      else if (exec == "def" || exec == "park") && (typ == "tcp" || typ == "unix" || typ == "udp") && rbs.toNat! > 0 && cap.toNat! > 0 && np.toNat! > 0 then
+        let g : Cfg := { mode := m, async := async == "1", rbs := rbs.toNat!, cap := cap.toNat!, udp := typ == "udp" }
+        let s : St := if g.udp then init else { init with opens := [0] }
+        say { g, s, exec } "ok"
+      else IO.println "bad-op"; loop h d
+    | none => IO.println "bad-op"; loop h d
+  | _ =>
+    if d.dead then IO.println "dead"; loop h d
+    else
+    let g := d.g
+    let s := d.s
+    match ws with
+    | ["push", p] =>
+      if g.udp then IO.println "bad-op"; loop h d
+      else
+        match step g s (.push (Drv.payload p)) with
+        | some s => say { d with s } "push"
+        | none => say d "nop"
+    | ["dgram", a, p] =>
+      match (if g.udp then parseAddr a else none) with
+      | some a =>
+        match step g s (.dgram a (Drv.payload p)) with
+        | some s => say { d with s } "dgram"
+        | none => say d "nop"
+      | none => IO.println "bad-op"; loop h d
+    | ["eof"] =>
+      match step g s .eof with
+      | some s => say { d with s } "eof"
+      | none => IO.println "bad-op"; loop h d
+    | ["rderr"] =>
+      match step g s .rderr with
+      | some s => say { d with s } "rderr"
+      | none => say d "nop"
+    | ["intr", n] =>
+      match step g s (.intr n.toNat!) with
+      | some s => say { d with s, intrTotal := d.intrTotal + n.toNat! } "intr"
+      | none => say d "nop"
+    | "event" :: _ | ["poll"] =>
+      -- flags the kernel reports
+      let r? : Option (Bool × Bool × Bool × St) :=
+        match ws with
+        | ["poll"] =>
+          let due := match g.mode with | .lt => true | .et => s.k.edge | .os => s.k.armed && s.k.edge
+          if !s.k.readable then
+            some (false, false, false, if g.mode != .lt then (step g s .stale).getD s else s)
+          else some (due, due, false, s)
+        | _ :: f :: _ =>
+          match parseFlags f with
+          | none => none
+          | some w =>
+            if g.mode == .os && !s.k.armed then some (false, false, false, s)
+            else
+              let out := w.out && g.mode == .et
+              -- ERR|HUP rides on any report while a socket error is pending; an error-only report needs to be asked for
+              let any := w.inn || (w.rdhup && s.k.eof) || out || (s.k.rerr && w.err)
+              -- the kernel reports the whole ready mask: IN whenever something is readable
+              let inn := w.inn || (any && (s.k.qlen > 0 || s.k.eof))
+              if any then some (true, inn, out, s) else some (false, false, false, s)
+        | _ => none
+      match r? with
+      | none => IO.println "bad-op"; loop h d
+      | some (any, inn, out, s) =>
+        let d := { d with s }
+        let fl : Flags := { inn, out, rdhup := inn && s.k.eof, err := s.k.rerr }
+        if !any || !s.k.reg || s.closed then say d "nop"
+        else if (match s.task with | .rd _ => true | _ => false) && (!(inn && !out && !fl.rdhup && !fl.err) || g.mode != .et) then say d "busy"
+        else
+          match deliver d inn out with
+          | some s' => say { d with s := s' } ("ev=" ++ flagStr inn out fl.rdhup fl.err)
+          | none =>
+            let (l, d) := showSt d "spin"
+            IO.println l
+            loop h { d with dead := true }
+    | ["undo"] => say d "nop"
+    | ["task", "step"] =>
+      if !(g.isAsync && d.exec == "park") then say d "nop"
+      else match tstep g s with
+        | none => say d "T notask"
+        | some s' => say { d with s := s' } ("T " ++ stepDesc s')
+    | ["drain"] =>
+      if !(g.isAsync && d.exec == "park") then say d "nop"
+      else
+        let units := if g.udp then s.k.dq.length + 1 else s.k.rq.length / g.rbs + 1
+        let bound := 16 + 4 * (units + d.intrTotal)
+        match runT g bound s with
+        | some s' => say { d with s := s' } "drain"
+        | none =>
+          let (l, d) := showSt d "spin"
+          IO.println l
+          loop h { d with dead := true }
+    | ["key", a] =>
+      match parseAddr a with
+      | some a => IO.println ("K " ++ Drv.hex (udpKey a)); loop h d
+      | none => IO.println "bad-op"; loop h d
+    | _ => IO.println "bad-op"; loop h d
 
-def main : IO Unit := do loop (← IO.getStdin)
+def main : IO Unit := do
+  loop (← IO.getStdin) { g := { mode := .lt, async := false, rbs := 1, cap := 1, udp := false }, s := init, dead := true }
